@@ -327,6 +327,12 @@ func runDist(c *mon.Case) {
 	if c.Idx%3 != 0 {
 		// ---- nucleotide models
 		in := genInput(r, "nt", false, true, 2)
+		if r.Chance(0.12) {
+			// an alignment whose alphabet was never detected (built through the library): a distance computation that
+			// refuses it, or serves it, leaves that as it is
+			in.alpha, in.UnknownAlphabet = align.UNKNOWN, true
+			c.Count("dist-unknown-alphabet")
+		}
 		L := len(in.Seqs[0])
 		al := in.align()
 		e := &env{c: c, r: r, ws: []*watcher{watch("alignment", al)}}
@@ -1234,6 +1240,7 @@ func main() {
 	mon.Floor("phase:junk-sequence", 100)
 	mon.Floor("phase-orfs:amino acid references (ambiguous letters, declared protein)", 40)
 	mon.Floor("stats-unknown-alphabet", 100)
+	mon.Floor("dist-unknown-alphabet", 100)
 	mon.Floor("SubAlign:whole", 20)
 	mon.Floor("SelectSites:identity", 20)
 	mon.Main("C19", []mon.Sub{
